@@ -8,9 +8,13 @@ import Grass.Selector
   compounds), extend/extension.rs:68 (media check), evaluate/visitor.rs `visit_extend_rule`.
 
   Modelled fragment: selectors without selector pseudos, extensions whose target is one simple
-  selector and whose extender is a list of single compounds, no extension chains (no extender
-  contains a target).  `weave` on real complex extenders, `extend_pseudo`, and
-  `extend_existing_extensions` are NOT modelled: `run` answers `unsupported` there.
+  selector, no extension chains (no extender contains a target).  `run`: extenders are lists of single
+  compounds (the theorems).  `runX`: extenders are complex selectors — `unify_complex`, `weave`,
+  `weave_parents`, `merge_initial_combinators`, `merge_final_combinators`, `chunks`,
+  `longest_common_subsequence`, `group_selectors`, `complex_is_parent_superselector`, `must_unify`
+  (functions.rs) are modelled (switch `sibAsFound`, C10-X3), and so are `extend_existing_extensions`
+  (mod.rs:1042, one pass, no fixpoint loop) and `MergedExtension::merge`: `runX` covers chains and cycles.
+  `extend_pseudo` is NOT modelled: `run`/`runX` answer `unsupported` there (and `run` for chains).
 
   As-found switches (theorems are about `false`, the correspondence runs with `true`):
   * `mediaCheckNoop`      — D16: `assert_compatible_media_context` (extension.rs:68) does nothing;
@@ -368,6 +372,598 @@ def cList1 (credit : Simple → Ctx → Bool) (L : SelList) (p : Ctx) : Bool :=
     | some r => cComp1 credit r.1 p && cSteps1 credit r.2 p
     | none => false
 
+/-! ### `weave` and its helpers (extend/functions.rs) — complex extenders
+
+  `weaveParentsWith`/`weaveWith`/`unifyComplexWith` take the recursive callee as a parameter; the knot
+  (`unify_complex` → `weave` → `weave_parents` → lcs `select` → `unify_complex`) is tied by `ucF` with a
+  fuel that is only consumed on that cycle (each round works on strictly shorter component vectors).
+  `sibAsFound` — C10-X3: `merge_final_combinators` (functions.rs:413–486) emits `x ~ y ~` / `x ~ y +`
+  although the components that preceded `y` end in `+` (so they would now sit next to `x`); the
+  specified variant omits that alternative. -/
+
+def isCombC : Component → Bool | .comb _ => true | .compound _ => false
+
+/-- one row of the `lengths` table of `longest_common_subsequence` (functions.rs:284–301) on the reversed
+    prefixes: `prev` is the row of the shorter first list -/
+def lcsRow {α : Type} (sel : α → α → Option α) (a : α) (prev : List α → Nat) : List α → Nat
+  | [] => 0
+  | b :: r2 =>
+    if (sel a b).isSome then prev r2 + 1
+    else Nat.max (lcsRow sel a prev r2) (prev (b :: r2))
+
+/-- `lengths[i+1][j+1]` for the reversed prefixes `l1`, `l2` -/
+def lcsLen {α : Type} (sel : α → α → Option α) : List α → List α → Nat
+  | [] => fun _ => 0
+  | a :: r1 => lcsRow sel a (lcsLen sel r1)
+
+/-- `backtrack` (functions.rs:303) along one row -/
+def lcsBackRow {α : Type} (sel : α → α → Option α) (a : α) (lenHere lenPrev : List α → Nat)
+    (backPrev : List α → List α) : List α → List α
+  | [] => []
+  | b :: r2 =>
+    match sel a b with
+    | some s => backPrev r2 ++ [s]
+    | none =>
+      if lenHere r2 > lenPrev (b :: r2) then lcsBackRow sel a lenHere lenPrev backPrev r2
+      else backPrev (b :: r2)
+
+/-- `backtrack` (functions.rs:303) on the reversed prefixes; the answer is in forward order -/
+def lcsBack {α : Type} (sel : α → α → Option α) : List α → List α → List α
+  | [] => fun _ => []
+  | a :: r1 => lcsBackRow sel a (lcsLen sel (a :: r1)) (lcsLen sel r1) (lcsBack sel r1)
+
+/-- `longest_common_subsequence` (functions.rs:271) -/
+def lcs {α : Type} (sel : α → α → Option α) (l1 l2 : List α) : List α := lcsBack sel l1.reverse l2.reverse
+
+def eqSel {α : Type} [DecidableEq α] (a b : α) : Option α := if a = b then some a else none
+
+def groupGo : Complex → Complex → List Complex → List Complex
+  | [], cur, acc => acc ++ [cur]
+  | c :: rest, cur, acc =>
+    if (match cur.getLast? with | some x => isCombC x | none => false) || isCombC c
+    then groupGo rest (cur ++ [c]) acc
+    else groupGo rest [c] (acc ++ [cur])
+
+/-- `group_selectors` (functions.rs:596) -/
+def groupSelectors : Complex → List Complex
+  | [] => []
+  | c :: rest => groupGo rest [c] []
+
+/-- the `while !done(queue)` loops of `chunks` (functions.rs:643–651); both `done` callbacks answer
+    `true` on the empty queue -/
+def popUntil {α : Type} (done : List α → Bool) : List α → List α × List α
+  | [] => ([], [])
+  | x :: xs =>
+    if done (x :: xs) then ([], x :: xs)
+    else ((x :: (popUntil done xs).1), (popUntil done xs).2)
+
+/-- `chunks` (functions.rs:638): the orderings and the two remaining queues -/
+def chunks {α : Type} (done : List α → Bool) (q1 q2 : List α) : List (List α) × List α × List α :=
+  let c1 := popUntil done q1
+  let c2 := popUntil done q2
+  ((match c1.1.isEmpty, c2.1.isEmpty with
+    | true, true => []
+    | true, false => [c2.1]
+    | false, true => [c1.1]
+    | false, false => [c1.1 ++ c2.1, c2.1 ++ c1.1]), c1.2, c2.2)
+
+def headIsComb : Complex → Bool | .comb _ :: _ => true | _ => false
+
+/-- `complex_is_parent_superselector` (functions.rs:675); selectors without selector pseudos -/
+def parentSuper (c1 c2 : Complex) : Bool :=
+  if headIsComb c1 || headIsComb c2 then false
+  else if c1.length > c2.length then false
+  else isSuperComplex0 false (c1 ++ [.compound [.placeholder []]]) (c2 ++ [.compound [.placeholder []]])
+
+/-- `is_unique` (functions.rs:756) -/
+def isUniqueS : Simple → Bool | .id _ => true | .pelem _ => true | _ => false
+
+/-- `must_unify` (functions.rs:727) -/
+def mustUnify (c1 c2 : Complex) : Bool :=
+  let us := (simplesOf c1).filter isUniqueS
+  if us.isEmpty then false else (simplesOf c2).any fun s => isUniqueS s && us.contains s
+
+def takeCombs : Complex → List Comb × Complex
+  | .comb c :: rest => (c :: (takeCombs rest).1, (takeCombs rest).2)
+  | l => ([], l)
+
+/-- `merge_initial_combinators` (functions.rs:232): merged leading combinators and the two queues -/
+def mergeInitial (q1 q2 : Complex) : Option (List Comb × Complex × Complex) :=
+  let t1 := takeCombs q1
+  let t2 := takeCombs q2
+  let l := lcs eqSel t1.1 t2.1
+  if l = t1.1 then some (t2.1, t1.2, t2.2)
+  else if l = t2.1 then some (t1.1, t1.2, t2.2)
+  else none
+
+def endsNext : Complex → Bool | .comb .next :: _ => true | _ => false
+
+/-- `merge_final_combinators` (functions.rs:341).  The queues are given REVERSED (last component
+    first); the answer is (choices in forward order, the two remaining reversed queues). -/
+def mergeFinal (sibAsFound : Bool) : Nat → Complex → Complex → List (List Complex) →
+    Option (List (List Complex) × Complex × Complex)
+  | 0, _, _, _ => none
+  | fuel + 1, r1, r2, result =>
+    if !headIsComb r1 && !headIsComb r2 then some (result, r1, r2) else
+    let t1 := takeCombs r1
+    let t2 := takeCombs r2
+    if t1.1.length > 1 || t2.1.length > 1 then
+      let l := lcs eqSel t1.1 t2.1
+      if l = t1.1 then some ([t2.1.reverse.map Component.comb] :: result, t1.2, t2.2)
+      else if l = t2.1 then some ([t1.1.reverse.map Component.comb] :: result, t1.2, t2.2)
+      else none
+    else
+    match t1.1.head?, t2.1.head? with
+    | some cb1, some cb2 =>
+      match t1.2, t2.2 with
+      | .compound c1 :: q1, .compound c2 :: q2 =>
+        let keep1 := sibAsFound || !endsNext q1     -- may something be put in front of `c1`?
+        let keep2 := sibAsFound || !endsNext q2
+        match cb1, cb2 with
+        | .later, .later =>
+          if superCompound0 c1 c2 then mergeFinal sibAsFound fuel q1 q2 ([[.compound c2, .comb .later]] :: result)
+          else if superCompound0 c2 c1 then mergeFinal sibAsFound fuel q1 q2 ([[.compound c1, .comb .later]] :: result)
+          else
+            let ch := (if keep2 then [[Component.compound c1, .comb .later, .compound c2, .comb .later]] else []) ++
+                      (if keep1 then [[Component.compound c2, .comb .later, .compound c1, .comb .later]] else []) ++
+                      (match unifyCompound c1 c2 with
+                       | some u => [[Component.compound u, .comb .later]]
+                       | none => [])
+            mergeFinal sibAsFound fuel q1 q2 (ch :: result)
+        | .later, .next =>
+          -- following = c1, next = c2
+          if superCompound0 c1 c2 then mergeFinal sibAsFound fuel q1 q2 ([[.compound c2, .comb .next]] :: result)
+          else
+            let ch := (if keep2 then [[Component.compound c1, .comb .later, .compound c2, .comb .next]] else []) ++
+                      (match unifyCompound c1 c2 with
+                       | some u => [[Component.compound u, .comb .next]]
+                       | none => [])
+            mergeFinal sibAsFound fuel q1 q2 (ch :: result)
+        | .next, .later =>
+          -- following = c2, next = c1
+          if superCompound0 c2 c1 then mergeFinal sibAsFound fuel q1 q2 ([[.compound c1, .comb .next]] :: result)
+          else
+            let ch := (if keep1 then [[Component.compound c2, .comb .later, .compound c1, .comb .next]] else []) ++
+                      (match unifyCompound c1 c2 with
+                       | some u => [[Component.compound u, .comb .next]]
+                       | none => [])
+            mergeFinal sibAsFound fuel q1 q2 (ch :: result)
+        | .child, .next => mergeFinal sibAsFound fuel r1 q2 ([[.compound c2, .comb cb2]] :: result)
+        | .child, .later => mergeFinal sibAsFound fuel r1 q2 ([[.compound c2, .comb cb2]] :: result)
+        | .next, .child => mergeFinal sibAsFound fuel q1 r2 ([[.compound c1, .comb cb1]] :: result)
+        | .later, .child => mergeFinal sibAsFound fuel q1 r2 ([[.compound c1, .comb cb1]] :: result)
+        | _, _ =>
+          if cb1 ≠ cb2 then none else
+          match unifyCompound c1 c2 with
+          | none => none
+          | some u => mergeFinal sibAsFound fuel q1 q2 ([[.compound u, .comb cb1]] :: result)
+      | _, _ => none      -- `unreachable!()` (functions.rs:405)
+    | some cb1, none =>
+      match t1.2 with
+      | [] => none        -- `pop_back().unwrap()` on an empty queue
+      | x :: q1 =>
+        let r2' := match cb1, x, r2 with
+          | .child, .compound k1, .compound k2 :: q2 => if superCompound0 k2 k1 then q2 else r2
+          | _, _, _ => r2
+        mergeFinal sibAsFound fuel q1 r2' ([[x, .comb cb1]] :: result)
+    | none, some cb2 =>
+      match t2.2 with
+      | [] => none
+      | x :: q2 =>
+        let r1' := match cb2, r1, x with
+          | .child, .compound k1 :: q1, .compound k2 => if superCompound0 k1 k2 then q1 else r1
+          | _, _, _ => r1
+        mergeFinal sibAsFound fuel r1' q2 ([[x, .comb cb2]] :: result)
+    | none, none => none  -- `unreachable!()`
+
+def hasRoot (c : Compound) : Bool := c.contains (.pclass ['r', 'o', 'o', 't'])
+
+/-- `first_if_root` (functions.rs:564) -/
+def firstIfRoot : Complex → Option (Compound × Complex)
+  | .compound c :: rest => if hasRoot c then some (c, rest) else none
+  | _ => none
+
+def flat (l : List Complex) : Complex := l.flatMap id
+
+/-- the `select` callback of `weave_parents` (functions.rs:148–177) -/
+def weaveSelect (uc : List Complex → Option (List Complex)) (g1 g2 : Complex) : Option Complex :=
+  if g1 = g2 then some g1
+  else match g1, g2 with
+    | [], _ => none
+    | _, [] => none
+    | x :: _, y :: _ =>
+      if isCombC x || isCombC y then none
+      else if parentSuper g1 g2 then some g2
+      else if parentSuper g2 g1 then some g1
+      else if !mustUnify g1 g2 then none
+      else match uc [g1, g2] with
+        | some [u] => some u
+        | _ => none
+
+/-- the `for group in lcs` loop of `weave_parents` (functions.rs:185–203) -/
+def weaveLoop : List Complex → List Complex → List Complex → List (List Complex) × List Complex × List Complex
+  | [], g1, g2 => ([], g1, g2)
+  | group :: rest, g1, g2 =>
+    let ch := chunks (fun sq => match sq with | [] => true | v :: _ => parentSuper v group) g1 g2
+    let more := weaveLoop rest (ch.2.1.drop 1) (ch.2.2.drop 1)
+    (ch.1.map flat :: [group] :: more.1, more.2.1, more.2.2)
+
+/-- `weave_parents` (functions.rs:116) -/
+def weaveParentsWith (sibAsFound : Bool) (uc : List Complex → Option (List Complex)) (p1 p2 : Complex) :
+    Option (List Complex) :=
+  match mergeInitial p1 p2 with
+  | none => none
+  | some (init, q1, q2) =>
+    match mergeFinal sibAsFound (q1.length + q2.length + 1) q1.reverse q2.reverse [] with
+    | none => none
+    | some (fin, r1, r2) =>
+      let q1 := r1.reverse
+      let q2 := r2.reverse
+      let rooted : Option (Complex × Complex) :=
+        match firstIfRoot q1, firstIfRoot q2 with
+        | some (a, q1'), some (b, q2') =>
+          (unifyCompound a b).map fun u => (.compound u :: q1', .compound u :: q2')
+        | some (a, q1'), none => some (q1', .compound a :: q2)
+        | none, some (b, q2') => some (.compound b :: q1, q2')
+        | none, none => some (q1, q2)
+      match rooted with
+      | none => none
+      | some (q1, q2) =>
+        let g1 := groupSelectors q1
+        let g2 := groupSelectors q2
+        let l := lcs (weaveSelect uc) g2 g1
+        let lp := weaveLoop l g1 g2
+        let last := chunks (fun sq => sq.isEmpty) lp.2.1 lp.2.2
+        let choices : List (List Complex) :=
+          [[init.map Component.comb]] ++ lp.1 ++ [last.1.map flat] ++ fin
+        some ((paths (choices.filter fun ch => !ch.isEmpty)).map flat)
+
+/-- one round of the `for` loop of `weave` (functions.rs:73–98) -/
+def weaveStep (wp : Complex → Complex → Option (List Complex)) (prefixes : List Complex) (complex : Complex) :
+    List Complex :=
+  match complex.reverse with
+  | [] => prefixes
+  | target :: parentsRev =>
+    if parentsRev.isEmpty then prefixes.map (· ++ [target])
+    else prefixes.flatMap fun pre =>
+      match wp pre parentsRev.reverse with
+      | none => []
+      | some pps => pps.map (· ++ [target])
+
+/-- `weave` (functions.rs:68) -/
+def weaveWith (wp : Complex → Complex → Option (List Complex)) : List Complex → List Complex
+  | [] => []
+  | first :: rest => rest.foldl (weaveStep wp) [first]
+
+def lastCompound (x : Complex) : Option Compound :=
+  match x.getLast? with
+  | some (.compound c) => some c
+  | _ => none
+
+/-- the base-unification loop of `unify_complex` (functions.rs:24–39) -/
+def unifyBases : List Complex → Option Compound → Option Compound
+  | [], acc => acc
+  | x :: rest, acc =>
+    match lastCompound x with
+    | none => none
+    | some b =>
+      match acc with
+      | none => unifyBases rest (some b)
+      | some u =>
+        match unifyCompound b u with
+        | none => none
+        | some u' => unifyBases rest (some u')
+
+def pushToLast (l : List Complex) (c : Component) : List Complex :=
+  match l.reverse with
+  | [] => []
+  | x :: r => (r.reverse) ++ [x ++ [c]]
+
+/-- `unify_complex` (functions.rs:13) -/
+def unifyComplexWith (wv : List Complex → List Complex) (cs : List Complex) : Option (List Complex) :=
+  match cs with
+  | [] => none
+  | [_] => some cs
+  | _ =>
+    match unifyBases cs none with
+    | none => none
+    | some u => some (wv (pushToLast (cs.map List.dropLast) (.compound u)))
+
+/-- the recursion `unify_complex → weave → weave_parents → select → unify_complex`, tied with fuel -/
+def ucF (sibAsFound : Bool) : Nat → List Complex → Option (List Complex)
+  | 0 => fun _ => none
+  | f + 1 => unifyComplexWith (weaveWith (weaveParentsWith sibAsFound (ucF sibAsFound f)))
+
+def sizeCs (cs : List Complex) : Nat := cs.foldl (fun n x => n + x.length) 1
+
+def weaveParentsTop (sibAsFound : Bool) (p1 p2 : Complex) : Option (List Complex) :=
+  weaveParentsWith sibAsFound (ucF sibAsFound (p1.length + p2.length)) p1 p2
+
+def weaveTop (sibAsFound : Bool) (cs : List Complex) : List Complex :=
+  weaveWith (weaveParentsWith sibAsFound (ucF sibAsFound (sizeCs cs))) cs
+
+def unifyComplexTop (sibAsFound : Bool) (cs : List Complex) : Option (List Complex) := ucF sibAsFound (sizeCs cs + 1) cs
+
+/-- `SelectorList::unify` (list.rs:120) behind `selector-unify` -/
+def unifyLists (sibAsFound : Bool) (a b : SelList) : Option SelList :=
+  let r := a.flatMap fun c1 => b.flatMap fun c2 => (unifyComplexTop sibAsFound [c1, c2]).getD []
+  if r.isEmpty then none else some r
+
+/-! ### the extender with complex extenders (`extend_compound` → `unify_complex`, `extend_complex` → `weave`) -/
+
+structure XExt where
+  extender : Complex
+  target   : Simple
+  optional : Bool
+  media    : Option Nat
+  deriving DecidableEq, Repr, Inhabited
+
+structure XOpt where
+  comp       : Complex
+  isOriginal : Bool
+  media      : Option Nat
+  deriving DecidableEq, Repr, Inhabited
+
+structure XSwitches where
+  sw         : Switches
+  sibAsFound : Bool          -- C10-X3
+  deriving DecidableEq, Repr, Inhabited
+
+def origXOpt (c : Compound) : XOpt := ⟨[.compound c], true, none⟩
+def extXOpt (e : XExt) : XOpt := ⟨e.extender, false, e.media⟩
+
+def xextendersOf (exts : List XExt) (s : Simple) : List XExt := exts.filter (fun e => e.target = s)
+
+/-- the `options` vector of `extend_compound` (mod.rs:366–398) -/
+def buildXOptions (exts : List XExt) : Compound → Compound → Option (List (List XOpt)) → Option (List (List XOpt))
+  | _, [], acc => acc
+  | pre, s :: rest, acc =>
+    let es := xextendersOf exts s
+    if es.isEmpty then
+      match acc with
+      | some v => buildXOptions exts (pre ++ [s]) rest (some (v ++ [[origXOpt [s]]]))
+      | none => buildXOptions exts (pre ++ [s]) rest none
+    else
+      let entry := origXOpt [s] :: es.map extXOpt
+      match acc with
+      | none => buildXOptions exts (pre ++ [s]) rest (some ((if pre.isEmpty then [] else [[origXOpt pre]]) ++ [entry]))
+      | some v => buildXOptions exts (pre ++ [s]) rest (some (v ++ [entry]))
+
+def lastSimples (x : Complex) : Compound := (lastCompound x).getD []
+
+/-- one path of `extend_compound` (mod.rs:472–493), not the first -/
+def unifyXPath (sib : Bool) (path : List XOpt) : Option (List Complex) :=
+  let originals := (path.filter (·.isOriginal)).flatMap (fun o => lastSimples o.comp)
+  let others := (path.filter (fun o => !o.isOriginal)).map (·.comp)
+  match (if originals.isEmpty then others else [.compound originals] :: others) with
+  | [] => none
+  | l => unifyComplexTop sib l
+
+def xmediaOk (ruleMedia : Option Nat) (o : XOpt) : Bool :=
+  match o.media with
+  | none => true
+  | some m => ruleMedia = some m
+
+def checkXMedia (sw : Switches) (ruleMedia : Option Nat) (path : List XOpt) : Bool :=
+  sw.mediaCheckNoop || path.all (xmediaOk ruleMedia)
+
+/-- `source_specificity` (mod.rs:986) with complex extenders -/
+def srcSpecOfX (exts : List XExt) (s : Simple) : Nat :=
+  match exts.find? (fun e => (simplesOf e.extender).contains s) with
+  | some e => (specComplex e.extender).1
+  | none => 0
+
+/-- `extend_compound` (mod.rs:352), Normal mode, extenders are complex selectors -/
+def extendCompoundX (xs : XSwitches) (exts all : List XExt) (ruleMedia : Option Nat) (inOriginal : Bool)
+    (c : Compound) : Except XErr (Option (List Complex)) :=
+  match buildXOptions exts [] c none with
+  | none => .ok none
+  | some options =>
+    match options with
+    | [single] =>
+      if checkXMedia xs.sw ruleMedia single then .ok (some (single.map (·.comp)))
+      else .error .crossMedia
+    | _ =>
+      match paths options with
+      | [] => .ok (some [])
+      | first :: others =>
+        let unified : List (List XOpt × List Complex) :=
+          (first, [[.compound (first.flatMap fun o => lastSimples o.comp)]]) ::
+            others.filterMap fun p => (unifyXPath xs.sibAsFound p).map fun u => (p, u)
+        if unified.all (fun pu => checkXMedia xs.sw ruleMedia pu.1) then
+          let flagged : List Flagged :=
+            match unified.flatMap (·.2) with
+            | [] => []
+            | f :: r => (f, inOriginal) :: r.map fun y => (y, false)
+          .ok (some ((trim (isSuperComplex0 xs.sw.supAsFound) (srcSpecOfX all) flagged).map (·.1)))
+        else .error .crossMedia
+
+/-- `extended_not_expanded` of `extend_complex` (mod.rs:264–307) -/
+def complexChoicesX (xs : XSwitches) (exts all : List XExt) (ruleMedia : Option Nat) (isOrig : Bool) :
+    Complex → Except XErr (List (List Complex) × Bool)
+  | [] => .ok ([], false)
+  | .comb cb :: rest =>
+    match complexChoicesX xs exts all ruleMedia isOrig rest with
+    | .error e => .error e
+    | .ok (chs, any) => .ok ([[.comb cb]] :: chs, any)
+  | .compound c :: rest =>
+    match extendCompoundX xs exts all ruleMedia isOrig c, complexChoicesX xs exts all ruleMedia isOrig rest with
+    | .error e, _ => .error e
+    | _, .error e => .error e
+    | .ok none, .ok (chs, any) => .ok ([[.compound c]] :: chs, any)
+    | .ok (some ext), .ok (chs, _) => .ok (ext :: chs, true)
+
+/-- `extend_complex` (mod.rs:241): every path of alternatives is woven (`weave`, functions.rs:68) -/
+def extendComplexX (xs : XSwitches) (exts all : List XExt) (ruleMedia : Option Nat) (x : Flagged) :
+    Except XErr (Option (List Flagged)) :=
+  match complexChoicesX xs exts all ruleMedia x.2 x.1 with
+  | .error e => .error e
+  | .ok (_, false) => .ok none
+  | .ok (chs, true) =>
+    match (paths chs).flatMap (fun p => weaveTop xs.sibAsFound p) with
+    | [] => .ok (some [])
+    | f :: r => .ok (some ((f, x.2) :: r.map fun y => (y, false)))
+
+def extendEachX (xs : XSwitches) (exts all : List XExt) (ruleMedia : Option Nat) :
+    List Flagged → Except XErr (List Flagged × Bool)
+  | [] => .ok ([], false)
+  | x :: rest =>
+    match extendComplexX xs exts all ruleMedia x, extendEachX xs exts all ruleMedia rest with
+    | .error e, _ => .error e
+    | _, .error e => .error e
+    | .ok none, .ok (r, any) => .ok (x :: r, any)
+    | .ok (some ys), .ok (r, _) => .ok (ys ++ r, true)
+
+/-- `extend_list` (mod.rs:199) -/
+def extendListX (xs : XSwitches) (exts all : List XExt) (ruleMedia : Option Nat) (l : List Flagged) :
+    Except XErr (List Flagged) :=
+  match extendEachX xs exts all ruleMedia l with
+  | .error e => .error e
+  | .ok (_, false) => .ok l
+  | .ok (ext, true) => .ok (trim (isSuperComplex0 xs.sw.supAsFound) (srcSpecOfX all) ext)
+
+structure XStore where
+  rules : List Rule
+  exts  : List XExt
+  deriving Repr, Inhabited
+
+def addSelectorX (xs : XSwitches) (st : XStore) (sel : SelList) (media : Option Nat) : Except XErr XStore :=
+  if !inFragment sel then .error .unsupported else
+  let flagged : List Flagged := sel.map fun x => (x, !SelList.isInvisible sel)
+  match (if st.exts.isEmpty then .ok flagged else extendListX xs st.exts st.exts media flagged) with
+  | .error e => .error e
+  | .ok cur => .ok { st with rules := st.rules ++ [⟨sel, cur, media⟩] }
+
+def reextendX (xs : XSwitches) (newExts all : List XExt) : List Rule → Except XErr (List Rule)
+  | [] => .ok []
+  | r :: rs =>
+    match extendListX xs newExts all r.media r.current, reextendX xs newExts all rs with
+    | .error e, _ => .error e
+    | _, .error e => .error e
+    | .ok cur, .ok rs' => .ok ({ r with current := cur } :: rs')
+
+/-- `MergedExtension::merge` (merged.rs:20).  `into_extension` sets `is_optional: true`; the flag is never read in
+    the code as found (D18) — the model keeps "mandatory if either side is mandatory", which is what the specified
+    variant's missing-target test needs. -/
+def mergeX (l r : XExt) : Except XErr XExt :=
+  if l.media.isSome && r.media.isSome && l.media ≠ r.media then .error .mediaMerge
+  else if r.optional && r.media.isNone then .ok l
+  else if l.optional && l.media.isNone then .ok r
+  else .ok { l with media := (match l.media with | some v => some v | none => r.media),
+                    optional := l.optional && r.optional }
+
+/-- `sources.insert(complex, merged)` on an existing key: the entry keeps its position (IndexMap) -/
+def replaceExt (exts : List XExt) (c : Complex) (t : Simple) (n : XExt) : List XExt :=
+  exts.map fun e => if e.extender = c && e.target = t then n else e
+
+/-- the `for complex in extender.components` loop of `add_extension` (mod.rs:947–998): all extensions of the store
+    (insertion order; per target this is the order of the IndexMap) and the newly added ones -/
+def registerX (target : Simple) (optional : Bool) (media : Option Nat) :
+    List Complex → List XExt → List XExt → Except XErr (List XExt × List XExt)
+  | [], exts, new => .ok (exts, new)
+  | c :: rest, exts, new =>
+    let state : XExt := ⟨c, target, optional, media⟩
+    match exts.find? (fun e => e.extender = c && e.target = target) with
+    | some old =>
+      match mergeX old state with
+      | .error e => .error e
+      | .ok m => registerX target optional media rest (replaceExt exts c target m) new
+    | none => registerX target optional media rest (exts ++ [state]) (new ++ [state])
+
+/-- `self.originals.contains(complex)` (mod.rs:268) for the extender of an extension: a complex of a registered
+    visible rule (the flags carried by the rules' current selectors) -/
+def isOriginalX (rules : List Rule) (x : Complex) : Bool :=
+  rules.any fun r => r.current.any fun f => f.2 && f.1 = x
+
+/-- the `for complex in selectors` loop of `extend_existing_extensions` (mod.rs:1078–1113): a derived extension
+    `complex → ext.target` is merged into an equal existing one or appended; it is reported back
+    (`additional_extensions`) only when its target is the target being extended (`new_extensions.contains_key`) -/
+def deriveX (ext : XExt) (newTarget : Simple) : List Complex → List XExt → List XExt → Except XErr (List XExt × List XExt)
+  | [], exts, add => .ok (exts, add)
+  | c :: rest, exts, add =>
+    let w : XExt := { ext with extender := c }
+    match exts.find? (fun e => e.extender = c && e.target = ext.target) with
+    | some old =>
+      match mergeX old w with
+      | .error e => .error e
+      | .ok m => deriveX ext newTarget rest (replaceExt exts c ext.target m) add
+    | none => deriveX ext newTarget rest (exts ++ [w]) (if ext.target = newTarget then add ++ [w] else add)
+
+/-- `extend_existing_extensions` (mod.rs:1042): ONE pass over the extensions whose extender mentions the new target
+    (there is no fixpoint loop in the code: structural recursion over that snapshot); each extender is extended with
+    the new extensions only, in the media context of its own `@extend` -/
+def extendExistingX (xs : XSwitches) (rules : List Rule) (newExts : List XExt) (newTarget : Simple) :
+    List XExt → List XExt → List XExt → Except XErr (List XExt × List XExt)
+  | [], exts, add => .ok (exts, add)
+  | ext :: rest, exts, add =>
+    match extendComplexX xs newExts exts ext.media (ext.extender, isOriginalX rules ext.extender) with
+    | .error e => .error e
+    | .ok none => extendExistingX xs rules newExts newTarget rest exts add
+    | .ok (some []) => .error .unsupported
+    | .ok (some (f :: more)) =>
+      -- `contains_extension` (mod.rs:1076) is false only after a `:not()` expansion: outside the fragment
+      if f.1 ≠ ext.extender then .error .unsupported else
+      match deriveX ext newTarget (more.map (·.1)) exts add with
+      | .error e => .error e
+      | .ok (exts', add') => extendExistingX xs rules newExts newTarget rest exts' add'
+
+/-- `extensions_by_extender.get(target)` (mod.rs:943): one entry per occurrence of the target in an extender -/
+def byExtenderX (exts : List XExt) (target : Simple) : List XExt :=
+  exts.flatMap fun e => ((simplesOf e.extender).filter (fun s => s = target)).map fun _ => e
+
+/-- `add_extension` (mod.rs:935) with complex extenders, chains and cycles included: register, extend the existing
+    extensions (`extend_existing_extensions`), then the existing selectors with the new and the derived same-target
+    extensions (`extend_existing_selectors`).  Re-extending every rule is the same as re-extending
+    `self.selectors.get(target)`: `extend_list` leaves a selector that does not mention the target untouched. -/
+def addExtensionX (xs : XSwitches) (st : XStore) (extender : SelList) (target : Simple) (optional : Bool)
+    (media : Option Nat) : Except XErr XStore :=
+  if target.isSel || target.isParent || !noSelL extender || extender.containsParent then .error .unsupported else
+  if extender.any (fun x => lastIsComb x || headIsComb x) then .error .unsupported else
+  let existing := byExtenderX st.exts target
+  -- a chain or cycle step (an extender mentions a target): modelled for single-compound extenders only — with
+  -- complex extenders in a cycle the woven lists explode (C10-X5 in grass itself); those stay `unsupported`
+  let chainStep := !existing.isEmpty || extender.any (fun x => (simplesOf x).contains target) ||
+     extender.any (fun x => st.exts.any (fun e => (simplesOf x).contains e.target))
+  if chainStep && (extender.any (fun x => x.length ≠ 1) || st.exts.any (fun e => e.extender.length ≠ 1) ||
+      st.exts.length > 12) then .error .unsupported else
+  match registerX target optional media extender st.exts [] with
+  | .error e => .error e
+  | .ok (exts1, newExts) =>
+    if newExts.isEmpty then .ok { st with exts := exts1 } else
+    match (if existing.isEmpty then .ok (exts1, []) else extendExistingX xs st.rules newExts target existing exts1 []) with
+    | .error e => .error e
+    | .ok (exts2, add) =>
+      match reextendX xs (newExts ++ add) exts2 st.rules with
+      | .error e => .error e
+      | .ok rules => .ok { rules := rules, exts := exts2 }
+
+/-- the selector `visit_extend_rule` (visitor.rs:1366) hands to `add_extension` is the CURRENT (already extended)
+    selector of the rule the `@extend` is written in — the rule registered just before (`R` then `E` in the driver's
+    item list); without such a rule the written extender is used -/
+def currentExtender (st : XStore) (ex : SelList) : SelList :=
+  match st.rules.getLast? with
+  | some r => if r.original = ex then r.current.map (·.1) else ex
+  | none => ex
+
+def runItemsX (xs : XSwitches) : XStore → List Item → Except XErr XStore
+  | st, [] => .ok st
+  | st, .rule sel media :: rest =>
+    match addSelectorX xs st sel media with
+    | .error e => .error e
+    | .ok st' => runItemsX xs st' rest
+  | st, .extend ex t o m :: rest =>
+    match addExtensionX xs st (currentExtender st ex) t o m with
+    | .error e => .error e
+    | .ok st' => runItemsX xs st' rest
+
+def runX (xs : XSwitches) (items : List Item) : Except XErr (List SelList) :=
+  match runItemsX xs ⟨[], []⟩ items with
+  | .error e => .error e
+  | .ok st =>
+    if !xs.sw.mandatoryNotTracked && st.exts.any (fun e => !e.optional && !targetFound st.rules e.target)
+    then .error .missingTarget
+    else .ok (st.rules.map fun r => r.current.map (·.1))
+
 /-! ### driver entry points -/
 open Grass.Proto
 
@@ -509,6 +1105,28 @@ def handle : List String → String
         (fun p => cands.any fun cy => matchesComplex cy.1 p)
         (fun p => cands.all fun cy => !matchesComplex cy.1 p || decide (top p ≥ cy.2))
     | _, _, _, _, _ => "unsupported"
+  | "runx" :: a :: b :: c :: d :: rest =>
+    -- complex extenders: `extend_compound`/`extend_complex` with `unify_complex` and `weave`
+    match parseBool? a, parseBool? b, parseBool? c, parseBool? d with
+    | some a, some b, some c, some d =>
+      match parseItems rest with
+      | none => "unsupported"
+      | some items =>
+        match runX ⟨⟨a, b, c⟩, d⟩ items with
+        | .ok ls => "ok " ++ " ".intercalate (ls.map selOut)
+        | .error .unsupported => "unsupported"
+        | .error e => "err " ++ xerrStr e
+    | _, _, _, _ => "bad-op"
+  | ["unifyx", d, a, b] =>
+    -- `selector-unify` on complex operands: `unify_complex` + `weave` (list.rs:120)
+    match parseBool? d, decodeSel a, decodeSel b with
+    | some d, some A, some B =>
+      if !noSelL A || !noSelL B || A.containsParent || B.containsParent ||
+         (A ++ B).any (fun x => lastIsComb x || headIsComb x) then "unsupported"
+      else match unifyLists d A B with
+        | some l => "ok " ++ encodeChars (renderList l)
+        | none => "ok null"
+    | _, _, _ => "unsupported"
   | ["noplaceholder", out] =>
     match decodeSel out with
     | some l => "ok " ++ boolStr (!hasPlaceholder l)
